@@ -115,6 +115,11 @@ def parse_int(s, base):
             items.pop(0)
     if not items:
         raise ValueError("invalid literal for int()")
+    if base == 10:
+        from .seq import dec_source
+        src = dec_source(items)
+        if src is not None:
+            return -src if neg else src
     v = 0
     prev_us = True  # an underscore may not lead
     for idx, it in enumerate(items):
@@ -131,6 +136,11 @@ def parse_int(s, base):
 
 def _digit_value(it, base):
     """digit value of code unit `it` in `base`, raising ValueError on the non-digit branch"""
+    if base == 16:
+        from .seq import hex_source
+        src = hex_source(it)
+        if src is not None:
+            return src
     if isinstance(it, int):
         ch = chr(it)
         try:
@@ -166,10 +176,7 @@ def _int_from_bytes(b, byteorder="big", *, signed=False):
         import z3
         if not items:
             return 0
-        parts = []
-        for it in items:
-            parts.append(z3.BitVecVal(it, 8) if isinstance(it, _b.int) else it.lowbits(8))
-        e = z3.Concat(*parts) if len(parts) > 1 else parts[0]
+        e = core.concat_bytes(items)
         n = 8 * len(items)
         return core.mk_int(z3.ZeroExt(1, e), 0, (1 << n) - 1)
     return _b.int.from_bytes(b, byteorder, signed=signed)
@@ -299,6 +306,11 @@ def dec_str(x, max_digits=80):
         digits.append((v % 10) + 48)
         v = v // 10
     digits.reverse()
+    from . import seq as _seq
+    _seq._gc_src()
+    if all(isinstance(d, SymInt) for d in digits):
+        for k, d in enumerate(digits):
+            _seq.DEC_SRC[d.e.get_id()] = (d.e, x, k, nd)
     if neg:
         digits.insert(0, 45)
     return mk_seq("str", digits)
